@@ -1364,7 +1364,7 @@ func TestVerifNotify(t *testing.T) {
 	for v := 0; v < 6; v++ {
 		runOps(fmt.Sprintf("s%d", v), nfScripted(verifRng(int64(v)), hookTok, v), "scripted")
 	}
-	n := verifN(3000, 60000)
+	n := verifN(3000, 40000)
 	for c := 0; c < n; c++ {
 		rng := verifRng(int64(1000 + c))
 		g := &nfGen{rng: rng, n: 8 + rng.Intn(20), hook: hookTok, focus: c % 4}
